@@ -74,7 +74,7 @@ def cases_for(tier):
                                 continue
                             if pieces == 4 and (size not in (9000, 300000) or k > 3):
                                 continue
-                            if quick and size == 70000 and (k == 4 or (leave and k == 3)):
+                            if quick and size == 70000 and k > 2:
                                 continue
                             c = dict(e)
                             c.update({'k': k, 'size': size, 'batch': batch, 'leave': leave, 'pieces': pieces})
@@ -482,8 +482,17 @@ def _taken(ch):
     return [p[1].split('/')[p[2]] for p in ch.points]
 
 
-def run(ctx):
+def build(ctx):
+    t = time.time()
     ls.build_squid(ctx)
+    waited = time.time() - t
+    if waited > 20:                 # a long wait in the build lock / a rebuild is not the check's time
+        ctx.deadline_s += waited - 20
+    return waited
+
+
+def run(ctx):
+    build_s = build(ctx)
     cases = cases_for(ctx.tier)
     cases.sort(key=lambda c: (-(c['k'] + (2 if c['leave'] else 0) + c['pieces'] - 3), case_name(c)))
     t_end = ctx.t0 + ctx.deadline_s - 20
@@ -618,7 +627,7 @@ def run(ctx):
         'rule': 'case = ending of the first fetch (complete cacheable / abort instead of origin step n by FIN or RST / response that must not be shared) x origin framing '
                 '(Content-Length, chunked, close-delimited) x k clients x {first client alone, first two clients in one burst} x {first client stays, disconnects at any point} x size; '
                 'per case every order of the enabled actions {next client arrives, next origin step, first client disconnects} is executed',
-        'samples': samples[:6], 'executions_per_case_sample': dict(sorted(per_case.items())[:10]),
+        'build_step_s': round(build_s, 1), 'samples': samples[:6], 'executions_per_case_sample': dict(sorted(per_case.items())[:10]),
     }
     return Result(LEVEL, cov, violations, ASSUME)
 
